@@ -6,6 +6,6 @@ CONSTANTS
   MaxDepth = 4
   Alphabet <- AlphaCore
   MaxToks = 3
-  Big = FALSE
+  USize = 1
 SPECIFICATION SpecTexts
 INVARIANT NeverUnbalanced
